@@ -45,6 +45,28 @@ type walker struct {
 	path   []string
 	opaque map[string]bool // struct types without exported fields that are not special-cased
 	tmp    [binary.MaxVarintLen64]byte
+
+	// per-field summaries of a struct-typed result (the struct itself or the
+	// struct behind the returned pointer): captured at captureDepth
+	captureDepth int
+	fields       []fieldSum
+}
+
+// fieldSum summarises one exported top-level field of a struct result: whether
+// it holds its zero value and a 32-bit FNV-1a hash of its token stream. The
+// parent derives the CLASS of a difference (first differing top-level field
+// and its direction) from the two summaries, for every difference it sees.
+type fieldSum struct {
+	Zero bool   `json:"z"`
+	Hash uint32 `json:"h"`
+}
+
+func fnv32(b []byte) uint32 {
+	h := uint32(2166136261)
+	for _, c := range b {
+		h = (h ^ uint32(c)) * 16777619
+	}
+	return h
 }
 
 var (
@@ -323,9 +345,13 @@ func (w *walker) walk(v reflect.Value, depth int) {
 			}
 			exported++
 			w.rawTok('F', f.Name) // in a dump the path carries the field name
+			start := len(w.buf)
 			w.push("." + f.Name)
 			w.walk(v.Field(i), depth+1)
 			w.pop()
+			if depth == w.captureDepth {
+				w.fields = append(w.fields, fieldSum{Zero: v.Field(i).IsZero(), Hash: fnv32(w.buf[start:])})
+			}
 		}
 		if exported == 0 && t.NumField() > 0 {
 			if w.opaque == nil {
@@ -343,10 +369,43 @@ func (w *walker) walk(v reflect.Value, depth int) {
 
 type digest [16]byte
 
-// digestOf walks val and returns the digest; in dump mode the lines are left in w.lines.
+// structFieldNames lists the exported fields of a struct type (or of the struct
+// behind a pointer type) in the order the walker visits them; nil for other types.
+func structFieldNames(t reflect.Type) []string {
+	if t == nil {
+		return nil
+	}
+	if t.Kind() == reflect.Ptr {
+		t = t.Elem()
+	}
+	if t.Kind() != reflect.Struct || t == tTime || t == tBigInt {
+		return nil
+	}
+	var out []string
+	for i := 0; i < t.NumField(); i++ {
+		if t.Field(i).PkgPath == "" {
+			out = append(out, t.Field(i).Name)
+		}
+	}
+	return out
+}
+
+// digestOf walks val and returns the digest; in dump mode the lines are left in
+// w.lines; for struct results the per-field summaries are left in w.fields.
 func (w *walker) digestOf(val any) digest {
 	w.reset()
-	w.walk(reflect.ValueOf(val), 0)
+	w.fields = w.fields[:0]
+	rv := reflect.ValueOf(val)
+	w.captureDepth = -1
+	if rv.IsValid() {
+		switch {
+		case rv.Kind() == reflect.Struct && rv.Type() != tTime && rv.Type() != tBigInt:
+			w.captureDepth = 0
+		case rv.Kind() == reflect.Ptr && !rv.IsNil() && rv.Elem().Kind() == reflect.Struct && rv.Type() != tBigIntP:
+			w.captureDepth = 1
+		}
+	}
+	w.walk(rv, 0)
 	h := sha256.Sum256(w.buf)
 	var d digest
 	copy(d[:], h[:16])
